@@ -1094,3 +1094,235 @@ fn l2_new_establishes_invariant() {
 fn l2_new_establishes_invariant_partial() {
     check_new_establishes(TREE_FRAMES + 5);
 }
+
+// ---------------------------------------------------------------------------------------------
+// C10 / C11: completeness of base-order allocation, verified modularly.
+// Contract C0 (order 0, no target) strengthens G for the failing case:
+//   Err(Memory) => the allocator state is EXACTLY what it was at the call (tree words, slot words, LF)
+//                  and the helper's own "nothing usable here" condition held:
+//     steal_global / reserve_or_steal (tree i) : reserved(i) or counter(i) == 0 or policy Invalid
+//     get_local (slot)                          : slot empty, or slot counter == 0 and the held tree's
+//                                                 global counter == 0 (the sync threshold of C11)
+//     search_and_reserve                        : every tree is reserved, empty, or rated Invalid
+// ---------------------------------------------------------------------------------------------
+#[derive(Clone, Copy, PartialEq, Eq)]
+struct Full {
+    words: [u32; L2T],
+    slots: [u64; MAXC],
+    lf: [usize; L2T],
+}
+fn full_state(a: &LLFree) -> Full {
+    let mut words = [0u32; L2T];
+    let mut t = 0;
+    while t < L2T {
+        words[t] = cur_word(a, t);
+        t += 1;
+    }
+    let mut slots = [0u64; MAXC];
+    let mut c = 0;
+    while c < MAXC {
+        if has_slot(a, c) {
+            slots[c] = crate::local::verif_contracts::slot_bits(&a.locals, Class(c as u8), 0);
+        }
+        c += 1;
+    }
+    Full { words, slots, lf: lf_now() }
+}
+fn same_state(a: &Full, b: &Full) -> bool {
+    let mut ok = true;
+    let mut t = 0;
+    while t < L2T {
+        if a.words[t] != b.words[t] || a.lf[t] != b.lf[t] {
+            ok = false;
+        }
+        t += 1;
+    }
+    let mut c = 0;
+    while c < MAXC {
+        if a.slots[c] != b.slots[c] {
+            ok = false;
+        }
+        c += 1;
+    }
+    ok
+}
+fn tree_unusable(s: &Full, class: Class, t: usize) -> bool {
+    let (free, reserved, tclass) = word_fields(s.words[t]);
+    reserved || free == 0 || kpolicy::kind(class, Class(tclass)) == 3
+}
+fn all_trees_unusable(s: &Full, class: Class) -> bool {
+    let mut ok = true;
+    let mut t = 0;
+    while t < L2T {
+        if !tree_unusable(s, class, t) {
+            ok = false;
+        }
+        t += 1;
+    }
+    ok
+}
+fn slot_exhausted(s: &Full, class: Class) -> bool {
+    let (present, row, sfree) = slot_fields(s.slots[class.0 as usize]);
+    if !present {
+        true
+    } else {
+        let t = row * 64 / TREE_FRAMES;
+        sfree == 0 && t < L2T && word_fields(s.words[t]).0 == 0
+    }
+}
+
+impl LLFree<'_> {
+    /// C0 as a stub: G for the successful case; a failure changes nothing and implies `cond`.
+    fn c0_stub(&self, class: Class, cond: impl Fn(&Full) -> bool) -> Result<(FrameId, Class)> {
+        let before = full_state(self);
+        let r = self.g_stub(class, 0, None);
+        if r.is_err() {
+            // undo the havoc of g_stub: a failing base-order helper leaves the state as it found it
+            let mut t = 0;
+            while t < L2T {
+                set_tree_word(&self.trees, t, before.words[t]);
+                unsafe { ghost::LF[t] = before.lf[t] };
+                t += 1;
+            }
+            let mut c = 0;
+            while c < MAXC {
+                if has_slot(self, c) {
+                    set_slot(&self.locals, Class(c as u8), 0, before.slots[c]);
+                }
+                c += 1;
+            }
+            kani::assume(cond(&before));
+        }
+        r
+    }
+    fn steal_global_c0(&self, i: TreeId, class: Class, order: usize, frame: Option<FrameId>) -> Result<(FrameId, Class)> {
+        kani::assert(i.0 < L2T && order == 0 && frame.is_none(), "C0 stub: base order, no target");
+        self.c0_stub(class, |s| tree_unusable(s, class, i.0))
+    }
+    fn reserve_or_steal_c0(&self, i: TreeId, order: usize, class: Class, _local: usize) -> Result<(FrameId, Class)> {
+        kani::assert(i.0 < L2T && order == 0, "C0 stub: base order");
+        self.c0_stub(class, |s| tree_unusable(s, class, i.0))
+    }
+    fn get_local_c0(&self, order: usize, class: Class, local: usize, frame: Option<FrameId>, _sync: bool) -> core::result::Result<(FrameId, Class), (Error, Option<TreeId>)> {
+        kani::assert(order == 0 && frame.is_none() && self.locals.class_locals(class).is_some_and(|n| local < n), "C0 stub: base order, no target, valid slot");
+        match self.c0_stub(class, |s| slot_exhausted(s, class)) {
+            Ok(r) => Ok(r),
+            Err(e) => {
+                let t: Option<TreeId> = if kani::any() {
+                    let t: usize = kani::any();
+                    kani::assume(t < L2T);
+                    Some(TreeId(t))
+                } else {
+                    None
+                };
+                Err((e, t))
+            }
+        }
+    }
+    fn search_and_reserve_c0(&self, order: usize, class: Class, _local: usize, start: TreeId) -> Result<(FrameId, Class)> {
+        kani::assert(order == 0 && start.0 < L2T, "C0 stub: base order");
+        self.c0_stub(class, |s| all_trees_unusable(s, class))
+    }
+}
+
+/// Check C0 for a helper: G (through g_check) plus, on failure, unchanged state and the condition.
+fn c0_check(a: &LLFree, before: &Full, lf0: &[usize; L2T], class: Class, r: &Result<(FrameId, Class)>, cond: bool) {
+    g_check(a, lf0, class, 0, None, r);
+    if r.is_err() {
+        clause!(same_state(before, &full_state(a)), "C10/C11: a failing base-order helper leaves tree words, slot words and lower counters exactly as they were");
+        clause!(cond, "C10/C11: a base-order helper fails only if nothing usable was there (reserved / empty / Invalid; slot and its tree exhausted)");
+    }
+}
+fn c0_setup<const NC: usize>() -> (Cfg<NC>, Class, Option<usize>) {
+    let (c, class, order, _, local) = helper_setup::<NC>(false, false);
+    kani::assume(order == 0);
+    (c, class, local)
+}
+fn check_c0_steal_global<const NC: usize>() {
+    let (c, class, _) = c0_setup::<NC>();
+    let i: usize = kani::any();
+    kani::assume(i < L2T);
+    with_alloc(&c, |a| {
+        let before = full_state(a);
+        let r = a.steal_global(TreeId(i), class, 0, None);
+        c0_check(a, &before, &c.lf, class, &r, tree_unusable(&before, class, i));
+    });
+}
+fn check_c0_reserve_or_steal<const NC: usize>() {
+    let (c, class, local) = c0_setup::<NC>();
+    kani::assume(local.is_some());
+    let i: usize = kani::any();
+    kani::assume(i < L2T);
+    with_alloc(&c, |a| {
+        let before = full_state(a);
+        let r = a.reserve_or_steal(TreeId(i), 0, class, 0);
+        c0_check(a, &before, &c.lf, class, &r, tree_unusable(&before, class, i));
+    });
+}
+fn check_c0_get_local<const NC: usize>() {
+    let (c, class, local) = c0_setup::<NC>();
+    kani::assume(local.is_some());
+    with_alloc(&c, |a| {
+        let before = full_state(a);
+        let r = a.get_local(0, class, 0, None, true);
+        let r2 = match r {
+            Ok(x) => Ok(x),
+            Err((e, _)) => Err(e),
+        };
+        c0_check(a, &before, &c.lf, class, &r2, slot_exhausted(&before, class));
+    });
+}
+fn check_c0_search_and_reserve<const NC: usize>() {
+    let (c, class, local) = c0_setup::<NC>();
+    kani::assume(local.is_some());
+    let start: usize = kani::any();
+    kani::assume(start < L2T);
+    with_alloc(&c, |a| {
+        let before = full_state(a);
+        let r = a.search_and_reserve(0, class, 0, TreeId(start));
+        c0_check(a, &before, &c.lf, class, &r, all_trees_unusable(&before, class));
+    });
+}
+/// C10 (drained, never-Invalid policy) and C11 (one class, one slot) from the helper contracts.
+fn check_c10_modular<const NC: usize>() {
+    kpolicy::init(true);
+    let mut c = any_cfg::<NC>(false);
+    let mut i = 0;
+    while i < NC {
+        c.slots[i] = 0; // drained: no slot holds a tree
+        i += 1;
+    }
+    kani::assume(inv(&c.words, &c.slots, &c.lf, &c.offline, c.last_slots));
+    let class: u8 = kani::any();
+    kani::assume((class as usize) < NC);
+    let local = if kani::any() { Some(0) } else { None };
+    let (r, _, _, _) = with_alloc(&c, |a| a.get(None, Request::new(0, Class(class), local)));
+    vcover!(r.is_err(), "out of memory after a drain");
+    if r.is_err() {
+        clause!(sum_lf(&c.lf, &c.offline) == 0, "C10: after a drain a base-order allocation fails only if no frame outside offline trees is free");
+    }
+}
+fn check_c11_modular() {
+    kpolicy::init(false);
+    let mut c = any_cfg::<1>(false);
+    c.offline = [false; L2T];
+    kani::assume(inv(&c.words, &c.slots, &c.lf, &c.offline, c.last_slots));
+    let (r, _, _, _) = with_alloc(&c, |a| a.get(None, Request::new(0, Class(0), Some(0))));
+    vcover!(r.is_err(), "out of memory");
+    if r.is_err() {
+        clause!(sum_lf(&c.lf, &c.offline) == 0, "C11: a single-slot allocator reports out-of-memory only if no frame is free");
+    }
+}
+const SBC: &str = "";
+path_harness!(c0_steal_global_2c, [kani::stub(crate::lower::Lower::get, crate::lower::Lower::get_contract)], check_c0_steal_global::<2>());
+path_harness!(c0_reserve_or_steal_2c, [kani::stub(crate::lower::Lower::get, crate::lower::Lower::get_contract)], check_c0_reserve_or_steal::<2>());
+path_harness!(c0_get_local_2c, [kani::stub(crate::lower::Lower::get, crate::lower::Lower::get_contract)], check_c0_get_local::<2>());
+path_harness!(c0_get_local_1c, [kani::stub(crate::lower::Lower::get, crate::lower::Lower::get_contract)], check_c0_get_local::<1>());
+path_harness!(c0_search_and_reserve_2c, [kani::stub(crate::trees::Trees::search_best, crate::trees::Trees::search_best_complete), kani::stub(crate::llfree::LLFree::reserve_or_steal, crate::llfree::LLFree::reserve_or_steal_c0)], check_c0_search_and_reserve::<2>());
+path_harness!(c0_search_and_reserve_1c, [kani::stub(crate::trees::Trees::search_best, crate::trees::Trees::search_best_complete), kani::stub(crate::llfree::LLFree::reserve_or_steal, crate::llfree::LLFree::reserve_or_steal_c0)], check_c0_search_and_reserve::<1>());
+path_harness!(c10_drained_base_order_modular_2c, [kani::stub(crate::trees::Trees::search_best, crate::trees::Trees::search_best_complete), kani::stub(crate::llfree::LLFree::get_local, crate::llfree::LLFree::get_local_c0),
+    kani::stub(crate::llfree::LLFree::search_and_reserve, crate::llfree::LLFree::search_and_reserve_c0), kani::stub(crate::llfree::LLFree::steal_global, crate::llfree::LLFree::steal_global_c0),
+    kani::stub(crate::llfree::LLFree::steal_local, crate::llfree::LLFree::steal_local_g), kani::stub(crate::llfree::LLFree::demote_local, crate::llfree::LLFree::demote_local_g)], check_c10_modular::<2>());
+path_harness!(c11_single_slot_modular, [kani::stub(crate::trees::Trees::search_best, crate::trees::Trees::search_best_complete), kani::stub(crate::llfree::LLFree::get_local, crate::llfree::LLFree::get_local_c0),
+    kani::stub(crate::llfree::LLFree::search_and_reserve, crate::llfree::LLFree::search_and_reserve_c0), kani::stub(crate::llfree::LLFree::steal_global, crate::llfree::LLFree::steal_global_c0),
+    kani::stub(crate::llfree::LLFree::steal_local, crate::llfree::LLFree::steal_local_g), kani::stub(crate::llfree::LLFree::demote_local, crate::llfree::LLFree::demote_local_g)], check_c11_modular());
